@@ -370,4 +370,51 @@ PrioPartition(bp) ==
 
 \* the reader inverts the writer (both transcribed from the format description)
 ReaderInvertsWriter(cfg) == BytesAgree(cfg, m, ReadManifest(WriteManifest(cfg, m)))
+
+\* ------------------------------------------------------------------------
+\* Part 6: code-shaped mask maintenance.  What the builders do to the byte vector of a
+\* tag, transcribed from install/builder.rs, download/builder.rs, size/builder.rs and
+\* install/tag.rs.  MC_Manifest carries one vector per tag next to the set model and
+\* checks after every operation that it is MaskBytes(members, n) (refinement).
+\* Defects = {} is the design without the listed findings; with a finding's id in
+\* Defects the operator behaves like the unchanged code and TLC regenerates the witness.
+\* ------------------------------------------------------------------------
+ImplBits(mask)    == {i \in 0..(8 * Len(mask) - 1) : BitIsSet(mask[(i \div 8) + 1], i % 8)}
+ImplMake(S, len)  == [b \in 1..len |-> MaskByte(S, b - 1, 0)]      \* the bits of S below 8*len, nothing else
+\* InstallTag::add_file: the vector grows to hold bit i, then byte i/8 |= 0x80 >> (i%8)
+ImplSetBit(mask, i)   == ImplMake(ImplBits(mask) \cup {i}, IF (i \div 8) + 1 > Len(mask) THEN (i \div 8) + 1 ELSE Len(mask))
+\* InstallTag::remove_file: byte i/8 &= !(0x80 >> (i%8)) when the byte exists
+ImplClearBit(mask, i) == ImplMake(ImplBits(mask) \ {i}, Len(mask))
+\* builder.add_file: every vector shorter than ceil(n/8) is zero-extended
+ImplGrow(mask, n)     == IF Len(mask) < (n + 7) \div 8 THEN ImplMake(ImplBits(mask), (n + 7) \div 8) ELSE mask
+\* InstallManifestBuilder::remove_file(i): for every remaining position j the old position is j (j < i) or j + 1
+ImplRemoveInstall(mask, nNew, i) ==
+  ImplMake({j \in 0..(nNew - 1) : LET old == IF j < i THEN j ELSE j + 1 IN old < 8 * Len(mask) /\ old \in ImplBits(mask)},
+           (nNew + 7) \div 8)
+\* DownloadManifestBuilder::remove_file(i): walks every bit of the old vector, drops bit i, packs, resizes
+ImplRemoveDownload(mask, nNew, i) ==
+  ImplMake({IF o < i THEN o ELSE o - 1 : o \in ImplBits(mask) \ {i}}, (nNew + 7) \div 8)
+\* SizeManifestBuilder::build: bit_mask.resize(ceil(n/8), 0) - bits named by tag_file beyond the last
+\* entry that fall into the last byte survive (finding F19a); the design clears them
+ImplSizeFinal(mask, n, defects) ==
+  ImplMake(IF "F19a" \in defects THEN ImplBits(mask) ELSE ImplBits(mask) \cap (0..(n - 1)), (n + 7) \div 8)
+
+\* one builder operation on the vectors `bm` (parallel to mm.tags) of a builder of the given shape;
+\* mm is the set model BEFORE the operation, the operation is valid
+ImplApplyOp(bm, shape, mm, e) ==
+  LET n == NFiles(mm) IN
+  CASE e.op = "add_file"    -> IF shape = "size" THEN bm ELSE [j \in 1..Len(bm) |-> ImplGrow(bm[j], n + 1)]
+    [] e.op = "add_tag"     -> Append(bm, ImplMake({}, IF shape = "size" THEN 0 ELSE (n + 7) \div 8))
+    [] e.op = "assoc"       -> [bm EXCEPT ![TagIx(mm, e.t)] = ImplSetBit(bm[TagIx(mm, e.t)], e.i)]
+    [] e.op = "dissoc"      -> [bm EXCEPT ![TagIx(mm, e.t)] = ImplClearBit(bm[TagIx(mm, e.t)], e.i)]
+    [] e.op = "remove_file" -> [j \in 1..Len(bm) |-> IF shape = "install" THEN ImplRemoveInstall(bm[j], n - 1, e.i)
+                                                     ELSE ImplRemoveDownload(bm[j], n - 1, e.i)]
+    [] e.op = "remove_tag"  -> SeqDrop(bm, TagIx(mm, e.t))
+    [] OTHER                -> bm
+\* the vectors as they are serialised
+ImplFinal(bm, shape, mm, defects) ==
+  IF shape = "size" THEN [j \in 1..Len(bm) |-> ImplSizeFinal(bm[j], NFiles(mm), defects)] ELSE bm
+MasksRefine(bm, shape, mm, defects) ==
+  /\ Len(bm) = Len(mm.tags)
+  /\ \A j \in 1..Len(bm) : ImplFinal(bm, shape, mm, defects)[j] = MaskOfTag(mm, mm.tags[j].name)
 =============================================================================
